@@ -1,6 +1,40 @@
-/-! Driver mode `ids` (stub, filled in by its check). -/
+import Sessions.Ids.All
+/-! Driver mode `ids`: `driver ids <harness log>` recomputes, with the Lean functions the C19 theorems are
+about, every identifier the real package produced from the recorded inputs (random bytes read, clock
+readings, MAC address, generator state) and prints one expected value per `sid`/`rid`/`cuid` line. -/
 namespace Drv
-def runIds (_args : List String) : IO UInt32 := do
-  IO.eprintln "mode not implemented"
-  return 2
+
+def hexn (c : Char) : Nat :=
+  if '0' ≤ c && c ≤ '9' then c.toNat - 48 else if 'a' ≤ c && c ≤ 'f' then c.toNat - 87 else 0
+
+def unhexNat : List Char → List Nat
+  | a :: b :: r => (hexn a * 16 + hexn b) :: unhexNat r
+  | _ => []
+
+def bytesOf (s : String) : List Nat := if s == "-" then [] else unhexNat s.toList
+
+def runIds (args : List String) : IO UInt32 := do
+  match args with
+  | [log] =>
+    let out ← IO.getStdout
+    let ls ← IO.FS.lines log
+    let mut mac : Nat := 0
+    let mut lt : Nat := 0
+    let mut lc : Nat := 0
+    for l in ls do
+      match (l.splitOn " ").filter (· ≠ "") with
+      | ["sid", _v, hx, _rt] => out.putStrLn ("sid " ++ Ids.sessionIDString (bytesOf hx))
+      | ["rid", _n, _v, hx, _e] => out.putStrLn ("rid " ++ Ids.randomIDString (bytesOf hx))
+      | ["cuidstart", m, t, c] =>
+        mac := Ids.macHash (bytesOf m)
+        lt := t.toNat!
+        lc := c.toNat!
+      | ["cuid", sec, nanos, _v] =>
+        let (s, lt', lc') := Ids.cuidStep lt lc (Ids.cuidTimestamp sec.toNat! nanos.toNat!) mac
+        lt := lt'
+        lc := lc'
+        out.putStrLn ("cuid " ++ s)
+      | _ => pure ()
+    return 0
+  | _ => IO.eprintln "usage: driver ids <log>"; return 2
 end Drv
